@@ -526,4 +526,282 @@ def tuplePushBack (t : List α) (x : α) : Except Fault (List α) := do
   let front ← arrayInit (fun i => deref t i) t.length
   pure (front ++ [x])
 
+
+/-! # Extension: references and aliasing, value categories, the remaining helpers of `fcppt/algorithm` and `fcppt/container`
+
+| model                          | C++                                                                   |
+|--------------------------------|-----------------------------------------------------------------------|
+| `loopBreakRef`, `loopRef`      | `loop_break` / `loop` over a non-const lvalue range, body assigns through `auto &&` |
+| `leftBehind`, `mapVC`          | `map_impl.hpp`: `_function(move_if_rvalue<Arg>(_map_element))`         |
+| `joinVC`                       | `container/detail/join_all.hpp`: `move_iterator_if_rvalue<Container>`  |
+| `readMove`, `arrayInitSE`, `arrayMapVC`, `arrayAppendVC`, `arrayJoin3VC`, `arrayPushBackVC`, `arrayFromRangeVC` | `array/map.hpp`, `append.hpp`, `detail/join.hpp`, `push_back.hpp`, `from_range.hpp` (`move_if_rvalue<Array>(get<Index>(a))`) |
+| `tupleMapVC`, `tuplePushBackVC`, `tupleConcatVC` | `tuple/map.hpp`, `detail/push_back.hpp`, `concat.hpp` |
+| `makeContainer`                | `container/make.hpp`                                                   |
+| `moveRange`                    | `container/move_range_impl.hpp`, `make_move_range.hpp`                 |
+| `stdEqual`, `equal`            | libstdc++ `std::equal` (4 iterators), `algorithm/equal.hpp`            |
+| `mapIterationSecond`, `getOrInsertPlain`, `mapValuesRef`, `mapArray`, `mapTuple`, `reverseRvalue` | `map_iteration_second.hpp`, `get_or_insert.hpp`, `map_values_ref.hpp`, `map_array.hpp`, `map_tuple.hpp`, `detail/reverse.hpp` |
+| `findOptIterator`, `containerFindOpt`, `containerContains`, `mapInsert`, `setInsertFlag` | `container/find_opt_iterator.hpp`, `find_opt.hpp`, `contains.hpp`, `insert.hpp` |
+| `maybeFront`, `maybeBack`, `popBack`, `popFront` | `container/maybe_front.hpp`, `maybe_back.hpp`, `pop_back.hpp`, `pop_front.hpp` |
+| `distance`, `containerSize`    | `container/size.hpp` + `detail/size.hpp`                               |
+| `data`, `dataEnd`              | `container/data.hpp`, `data_end.hpp`                                   |
+| `DynArray.*`                   | `container/dynamic_array_impl.hpp`                                     |
+| `output`                       | `container/output.hpp` + `detail/output.hpp`                           |
+| `rangeSingular`                | `range/singular.hpp` on a whole container                              |
+-/
+
+/-! ## references: a body that assigns through the element reference -/
+
+/-- `loop_break(range, body)` on a non-const lvalue range; `body(e)` returns the loop decision and the value it
+    leaves in `e` -/
+def loopBreakRef (xs : List α) (body : α → Loop × α) : List α :=
+  match xs with
+  | [] => []
+  | x :: rest =>
+    match body x with
+    | (.break_, x') => x' :: rest
+    | (.continue_, x') => x' :: loopBreakRef rest body
+
+/-- `loop(range, body)` with an assigning body -/
+def loopRef (xs : List α) (body : α → α) : List α := loopBreakRef xs (fun x => (.continue_, body x))
+
+/-! ## value categories: what a source looks like afterwards
+
+`moved` is the state a moved-from element is left in (for the probe type of the harness: the marker 9). -/
+
+/-- the object `x` after `T y(move_if_rvalue<Arg>(x))`: moved-from iff `Arg` is an rvalue -/
+def leftBehind (rv : Bool) (moved x : α) : α := if rv then moved else x
+
+/-- `map_impl::execute(Arg &&)` with a function taking its argument by value: result and the source afterwards -/
+def mapVC (rv : Bool) (moved : α) (xs : List α) (f : α → β) : List β × List α :=
+  loop xs (fun e (r, src) => (r ++ [f e], src ++ [leftBehind rv moved e])) ([], [])
+
+/-- `join_all(result, c, args...)`: `result.insert(end, move_iterator_if_rvalue<C>(c.begin()), …(c.end()))` for every
+    further argument: the result and every further argument afterwards (`first` has already been copied or taken over) -/
+def joinVC (moved : α) (first : List α) (args : List (Bool × List α)) : List α × List (List α) :=
+  args.foldl (fun (st : List α × List (List α)) c => (st.1 ++ c.2, st.2 ++ [c.2.map (leftBehind c.1 moved)])) (first, [])
+
+/-- `T y(move_if_rvalue<Array>(get<Index>(a)))`: the value read and the array afterwards -/
+def readMove (rv : Bool) (moved : α) (xs : List α) (i : Nat) : Except Fault (α × List α) :=
+  match xs[i]? with
+  | some x => .ok (x, if rv then xs.set i moved else xs)
+  | none => .error .oob
+
+/-- `array::init` with a function that has an effect on captured objects and may fail -/
+def arrayInitSE (f : Nat → σ → Except Fault (β × σ)) : Nat → σ → Except Fault (List β × σ)
+  | 0, s => .ok ([], s)
+  | n + 1, s => do
+    let (front, s1) ← arrayInitSE f n s
+    let (y, s2) ← f n s1
+    pure (front ++ [y], s2)
+
+/-- `array::map(Array &&src, f)` = `init([&](Index){ return f(move_if_rvalue<Array>(get<Index>(src))); })` -/
+def arrayMapVC (rv : Bool) (moved : α) (src : List α) (f : α → β) : Except Fault (List β × List α) :=
+  arrayInitSE (fun i s => do let (x, s') ← readMove rv moved s i; pure (f x, s')) src.length src
+
+/-- `array::append(Array1 &&a1, Array2 &&a2)`: result, `a1` and `a2` afterwards -/
+def arrayAppendVC (rv1 rv2 : Bool) (moved : α) (a1 a2 : List α) : Except Fault (List α × List α × List α) :=
+  arrayInitSE (fun i (st : List α × List α) =>
+      if i < a1.length then do
+        let (x, a) ← readMove rv1 moved st.1 i
+        pure (x, (a, st.2))
+      else do
+        let (x, b) ← readMove rv2 moved st.2 (i - a1.length)
+        pure (x, (st.1, b)))
+    (a1.length + a2.length) (a1, a2)
+
+/-- `array::join(a1, a2, a3)` = `detail::join(append(a1, a2), a3)` = `append(append(a1, a2), a3)`; the inner result is a temporary -/
+def arrayJoin3VC (rv1 rv2 rv3 : Bool) (moved : α) (a1 a2 a3 : List α) :
+    Except Fault (List α × List α × List α × List α) := do
+  let (a12, a1', a2') ← arrayAppendVC rv1 rv2 moved a1 a2
+  let (r, _, a3') ← arrayAppendVC true rv3 moved a12 a3
+  pure (r, a1', a2', a3')
+
+/-- `array::push_back(Source &&src, NewElement &&x)` = `append(forward(src), array::make(forward(x)))`: result, `src`
+    and `x` afterwards -/
+def arrayPushBackVC (rv rvx : Bool) (moved : α) (src : List α) (x : α) : Except Fault (List α × List α × α) := do
+  let made := [x]                       -- array::make(std::forward<NewElement>(x))
+  let x' := leftBehind rvx moved x
+  let (r, src', _) ← arrayAppendVC rv true moved src made
+  pure (r, src', x')
+
+/-- `array::from_range<Size>(Source &&src)`: `move_if_rvalue<Source>(src[Index])` -/
+def arrayFromRangeVC (rv : Bool) (moved : α) (size : Nat) (src : List α) : Option (Except Fault (List α × List α)) :=
+  if src.length == size then some (arrayInitSE (fun i s => readMove rv moved s i) size src) else none
+
+/-- `tuple::map(Tuple &&t, f)` = `tuple::init([&](Index){ return f(move_if_rvalue<Tuple>(get<Index>(t))); })` -/
+def tupleMapVC (rv : Bool) (moved : α) (t : List α) (f : α → β) : Except Fault (List β × List α) := arrayMapVC rv moved t f
+
+/-- `tuple::detail::push_back`: `Result{move_if_rvalue<Source>(get<Indices>(src))..., forward(x)}` -/
+def tuplePushBackVC (rv rvx : Bool) (moved : α) (t : List α) (x : α) : Except Fault (List α × List α × α) := do
+  let (front, t') ← arrayInitSE (fun i s => readMove rv moved s i) t.length t
+  pure (front ++ [x], t', leftBehind rvx moved x)
+
+/-- `tuple::concat(ts...)` = `apply(make, tuple_cat(move_if_rvalue<Tuples>(ts.impl())...))`: every tuple is copied or moved as a whole -/
+def tupleConcatVC (moved : α) (ts : List (Bool × List α)) : List α × List (List α) :=
+  (tupleConcat (ts.map (·.2)), ts.map fun t => t.2.map (leftBehind t.1 moved))
+
+/-- `container::make<Container>(args...)` = `map<Container>(array<reference, n>{ref(args)...}, [](ref){ return std::move(ref.get()); })`:
+    every argument is moved from, whatever its value category -/
+def makeContainer (moved : α) (args : List α) : Except Fault (List α × List α) :=
+  -- `algorithm::map` over the array of references (= positions 0 … n-1), in order; the function is `std::move(ref.get())`
+  (List.range args.length).foldlM (fun (st : List α × List α) r => do
+      let (x, a) ← readMove true moved st.2 r
+      pure (st.1 ++ [x], a)) ([], args)
+
+/-- `move_range<Container>`: the non-const `begin()/end()` are move iterators (reading an element by value leaves it moved-from),
+    the const ones are the container's.  Returns: const view before, values read through the move iterators, const view afterwards -/
+def moveRange (moved : α) (xs : List α) : List α × List α × List α :=
+  let viewBefore := xs
+  let (read, after) := mapVC true moved xs (fun e => e)
+  (viewBefore, read, after)
+
+/-! ## equal -/
+
+/-- `std::equal(first1, last1, first2, last2)` of libstdc++: two random-access ranges compare their lengths first,
+    otherwise `for (; first1 != last1 && first2 != last2; ++first1, ++first2) if (!(*first1 == *first2)) return false;
+    return first1 == last1 && first2 == last2;` -/
+def stdEqualLoop [BEq α] : List α → List α → Bool
+  | [], [] => true
+  | x :: xs, y :: ys => if !(x == y) then false else stdEqualLoop xs ys
+  | _, _ => false
+
+def stdEqual [BEq α] (bothRandomAccess : Bool) (xs ys : List α) : Bool :=
+  if bothRandomAccess then
+    if xs.length != ys.length then false else stdEqualLoop xs ys
+  else stdEqualLoop xs ys
+
+/-- `algorithm::equal(r1, r2)` -/
+def equal [BEq α] (bothRandomAccess : Bool) (xs ys : List α) : Bool := stdEqual bothRandomAccess xs ys
+
+/-! ## secondary entry points of functions modelled above -/
+
+/-- `map_iteration_second(map, action)` = `map_iteration(map, [&](value_type &e){ return action(e.second); })` -/
+def mapIterationSecond (m : Map) (action : Nat → σ → Bool × σ) (s : σ) : Map × σ :=
+  let wrapper : Nat × Nat → σ → Bool × σ := fun element s => action element.2 s
+  mapIteration m wrapper s
+
+/-- `get_or_insert(c, k, create)` = `get_or_insert_with_result(c, k, create).element()` -/
+def getOrInsertPlain (m : Map) (k : Nat) (create : Nat → σ → Nat × σ) (s : σ) : Except Fault Nat × Map × σ :=
+  let r := getOrInsert m k create s
+  (r.1.map (·.1), r.2)
+
+/-- `map_values_ref<Result>(map)` = `map<Result>(map, [](auto &&e){ return reference{e.second}; })`: the positions of the
+    mapped objects the references point to, in order -/
+def mapValuesRef (m : Map) : List Nat := (mapSeq (some m.length) (List.range m.length) (fun i => i)).1.elems
+
+/-- `algorithm::map<array>(array, f)` (map_array.hpp) = `array::map` -/
+def mapArray (src : List α) (f : α → β) : Except Fault (List β) := arrayMap src f
+
+/-- `algorithm::map<tuple>(tuple, f)` (map_tuple.hpp) = `tuple::map` -/
+def mapTuple (t : List α) (f : α → β) : Except Fault (List β) := tupleMap t f
+
+/-- `reverse(Container &&)` for an rvalue: `std::reverse` in place, the container is returned -/
+def reverseRvalue (xs : List α) : Except Fault (List α) := stdReverseLoop xs (xs.length + 1) 0 xs.length
+
+/-- `range::singular(c)` on a whole container: `!empty(c) && next(begin) == end` -/
+def rangeSingular (xs : List α) : Bool := singular (0, xs.length)
+
+/-! ## associative containers: find_opt_iterator, find_opt, contains, insert -/
+
+/-- `std::map::find` as a position: the index of the entry with the key, `end` (= size) if there is none -/
+def stdMapFindPos (m : Map) (k : Nat) : Nat := stdFindIf (fun e => e.1 == k) m
+
+/-- `find_opt_iterator`: `it = c.find(k); return it != c.end() ? some(it) : none` -/
+def findOptIterator (m : Map) (k : Nat) : Option Nat :=
+  let it := stdMapFindPos m k
+  if it != m.length then some it else none
+
+/-- `container::find_opt` = `optional::deref(find_opt_iterator(c, k))`: a reference to the `value_type` -/
+def containerFindOpt (m : Map) (k : Nat) : Option (Except Fault (Nat × Nat)) :=
+  (findOptIterator m k).map (deref m)
+
+/-- `container::contains(c, k)` = `c.count(k) > 0` -/
+def containerContains (keys : List Nat) (k : Nat) : Bool := keys.count k > 0
+
+/-- `container::insert(map, value)` = `map.insert(value).second`: `std::map::insert` inserts unless the key exists -/
+def mapInsert (m : Map) (kv : Nat × Nat) : Bool × Map :=
+  match findOptIterator m kv.1 with
+  | some _ => (false, m)
+  | none => (true, mapEmplace kv.1 kv.2 m)
+
+/-- `container::insert(set, x)` -/
+def setInsertFlag (s : List Nat) (x : Nat) : Bool × List Nat :=
+  if s.contains x then (false, s) else (true, setInsert x s)
+
+/-! ## maybe_front, maybe_back, pop_back, pop_front, size, data -/
+
+/-- `maybe_front`: `c.empty() ? none : some(ref(c.front()))` — the position referred to -/
+def maybeFront (xs : List α) : Option (Except Fault α) :=
+  if xs.isEmpty then none else some (deref xs 0)
+
+/-- `maybe_back`: `c.empty() ? none : some(ref(c.back()))` -/
+def maybeBack (xs : List α) : Option (Except Fault α) :=
+  if xs.isEmpty then none else some (deref xs (xs.length - 1))
+
+/-- `pop_back`: `make_if(!c.empty(), [&]{ T result{move(c.back())}; c.pop_back(); return result; })` -/
+def popBack (xs : List α) : Option (Except Fault α) × List α :=
+  if !xs.isEmpty then (some (deref xs (xs.length - 1)), xs.take (xs.length - 1)) else (none, xs)
+
+/-- `pop_front`: `make_if(!c.empty(), [&]{ T result{move(c.front())}; c.pop_front(); return result; })` -/
+def popFront (xs : List α) : Option (Except Fault α) × List α :=
+  if !xs.isEmpty then (some (deref xs 0), xs.drop 1) else (none, xs)
+
+/-- `std::distance(begin, end)` on forward iterators -/
+def distance : List α → Nat
+  | [] => 0
+  | _ :: rest => distance rest + 1
+
+/-- `container::size(range)`: `range.size()` if the range has one, else `std::distance(begin, end)` -/
+def containerSize (hasSize : Bool) (xs : List α) : Nat := if hasSize then xs.length else distance xs
+
+/-- a pointer into the element storage: `none` = `nullptr`, `some i` = address of element `i` (`some size` = one past the end) -/
+abbrev Ptr := Option Nat
+
+/-- `container::data(c)` = `c.empty() ? nullptr : std::data(c)` -/
+def data (xs : List α) : Ptr := if xs.isEmpty then none else some 0
+
+/-- pointer + n: `nullptr + 0` is `nullptr`, `nullptr + n` (n > 0) is undefined -/
+def ptrAdd (p : Ptr) (n : Nat) : Except Fault Ptr :=
+  match p with
+  | none => if n = 0 then .ok none else .error .oob
+  | some i => .ok (some (i + n))
+
+/-- `container::data_end(c)` = `data(c) + to_signed(c.size())` -/
+def dataEnd (xs : List α) : Except Fault Ptr := ptrAdd (data xs) xs.length
+
+/-! ## dynamic_array: `size` uninitialised cells -/
+
+structure DynArray (α : Type) where
+  cells : List (Option α)
+  deriving Repr
+
+/-- `dynamic_array(size)`: allocates, does not initialise -/
+def DynArray.mk' (size : Nat) : DynArray α := ⟨List.replicate size none⟩
+def DynArray.size (a : DynArray α) : Nat := a.cells.length
+/-- `data_end() - data()` -/
+def DynArray.extent (a : DynArray α) : Nat := a.cells.length
+/-- `data()[i] = x` -/
+def DynArray.write (a : DynArray α) (i : Nat) (x : α) : Except Fault (DynArray α) :=
+  if i < a.cells.length then .ok ⟨a.cells.set i (some x)⟩ else .error .oob
+/-- `data()[i]` -/
+def DynArray.read (a : DynArray α) (i : Nat) : Except Fault α :=
+  match a.cells[i]? with
+  | none => .error .oob
+  | some none => .error .uninit
+  | some (some x) => .ok x
+
+/-- fill `data()[0 .. size)` with `g 0, g 1, …` and read everything back -/
+def DynArray.fillRead (size : Nat) (g : Nat → α) : Except Fault (List α) := do
+  let a ← (List.range size).foldlM (fun (a : DynArray α) i => a.write i (g i)) (DynArray.mk' size)
+  (List.range size).mapM a.read
+
+/-! ## output -/
+
+/-- `operator<<(stream, container::output(c))`: `[`, then `for (it = begin; it != end; ++it) { stream << *it;
+    if (next(it) != end) stream << ','; }`, then `]` — the same loop shape as `join_strings` -/
+def output (render : α → List Char) (xs : List α) : List Char :=
+  ['['] ++ joinLoop (xs.map render) [','] 0 [] ++ [']']
+
+/-! ## equal_range / binary_search on arbitrary (also unsorted) input: see the `_any` theorems -/
+
 end Fcppt.C16
